@@ -272,6 +272,7 @@ func (t *topologyPlugin) getJobAllocatableDomains(
 	}
 
 	// Validate that the domains do not clash with the chosen domain for active pods of the job
+	podSets = t.withSessionJobPods(job, podSets)
 	var relevantDomainsByLevel domainsByLevel
 	if hasActiveAllocatedTasks(podSets) && hasTopologyRequiredConstraint(subGroup) {
 		relevantDomainsByLevel = getRelevantDomainsWithAllocatedPods(podSets, topologyTree,
@@ -307,6 +308,31 @@ func (t *topologyPlugin) getJobAllocatableDomains(
 	}
 
 	return domains, nil
+}
+
+// withSessionJobPods returns the same-named pod sets of the session's job. The reclaim / preempt / consolidation
+// solvers allocate a representative of the job that holds only its pending tasks; the pods of the job that already
+// run - and pin its required topology domain - are only known to the session's job.
+func (t *topologyPlugin) withSessionJobPods(
+	job *podgroup_info.PodGroupInfo, podSets map[string]*subgroup_info.PodSet,
+) map[string]*subgroup_info.PodSet {
+	if t.session == nil || t.session.ClusterInfo == nil {
+		return podSets
+	}
+	sessionJob, found := t.session.ClusterInfo.PodGroupInfos[job.UID]
+	if !found || sessionJob == job {
+		return podSets
+	}
+	sessionPodSets := sessionJob.GetSubGroups()
+	result := make(map[string]*subgroup_info.PodSet, len(podSets))
+	for name, podSet := range podSets {
+		if sessionPodSet, found := sessionPodSets[name]; found {
+			result[name] = sessionPodSet
+		} else {
+			result[name] = podSet
+		}
+	}
+	return result
 }
 
 func hasActiveAllocatedTasks(podSets map[string]*subgroup_info.PodSet) bool {
